@@ -25,6 +25,7 @@ EXPLANATION = (
     ' The XML readers / writers hand on sentences and n-best trees in the order read (no sort / reverse / set); no default argument evaluates the language at import time; the Jigg writer is found by role and its id / position bookkeeping is accepted as counter, threaded parameter or per-tree counter.'
     " Third round: token names for ccg2lambda (R15.5: normalize_token replaces all logic punctuation and prefixes '_'; normalize_tokens leaves nothing it wrote un-normalised) and no module-level table written by the tree builder modules (R15.6)."
     ' Fourth round: the file-name dispatch of the readers (R15.7), the Jigg spelling of one-valued features (R15.8), normalize_tokens works on a copy (R15.9).'
+    ' Fifth round: token fields written through `for k, v in token.items(): set(k, f(v))` are rewritten fields.'
 )
 TRUSTED = ['CPython ast', 'sa/pysym.py path walker', 'a line-based scan of the YAML templates for `rule:` values']
 
